@@ -684,6 +684,10 @@ class Gen(object):
     def g_set_link(self):
         secs = [s for s in self.secs() if s.parent is not None]
         x = self.pick(secs if not (self.fault() and self.chance(0.2)) else self.secs())
+        if self.fault() and self.chance(0.5):
+            # re-link: a Section whose link / include is already resolved is the in-flight state
+            linked = [s for s in secs if s.link is not None or s.include is not None]
+            x = self.pick(linked) or x
         if x is None:
             return None
         if self.fault() and self.chance(0.4):
